@@ -18,7 +18,7 @@ from gbasis.wrappers import from_pyscf
 RULE = ("Hypothesis draws a model basis set (1-4 elements with one- and two-letter symbols, 1-6 shells each, l from s to k, "
         "1-14 primitives, 1-6 coefficient columns in NWChem / one in Gaussian94, combined SP shells, repeated exponents that "
         "Gaussian94 must merge into a generalized shell) and a layout (number style E / D / 0.xD+yy / plain / no leading zero, "
-        "signs, column widths, comment and blank lines, 0 / 1 / 2+ lines before the first element incl. the single line "
+        "signs, column widths, comment and blank lines (between blocks and, for NWChem, also between the primitives of a shell), 0 / 1 / 2+ lines before the first element incl. the single line "
         "BASIS \"ao basis\" PRINT, with or without trailing END / ****); the file is written and parsed.  Oracle: the model, "
         "with every number equal to float() of the emitted token (exact).  make_contractions / from_pyscf: molecules of 1-11 "
         "atoms with repeated elements, float or int coordinates, coord_types as one string (4 spellings), list or tuple, "
@@ -106,6 +106,9 @@ def model_st(draw, fmt):
     layout = {"header": header, "indent": draw(st.integers(1, 8)), "sep": draw(st.integers(1, 12)),
               "gap": draw(st.integers(1, 6)), "comments": draw(st.booleans()), "blanks": draw(st.booleans()),
               "end": draw(st.booleans())}
+    if fmt == "nwchem" and draw(st.integers(0, 3)) == 0:
+        # NWChem input is free-format: a comment or an empty line may also sit between the primitives of one shell
+        layout["inner"] = draw(st.sampled_from(["", "# comment inside a shell", "#"]))
     return {"fmt": fmt, "model": model, "layout": layout, "style": style}
 
 
@@ -140,6 +143,8 @@ def judge_file(case):
     letters = [s["letters"] for _, shs in model for s in shs]
     if "SP" in letters:
         v.classes.append("sp-shell")
+    if case["layout"].get("inner") is not None:
+        v.classes.append("line-inside-shell")
     if any(len(s["cols"][0]) >= 3 for _, shs in model for s in shs):
         v.classes.append("columns>=3")
     if any(c in "GHIK" for c in "".join(letters)):
